@@ -15,6 +15,7 @@
 package service
 
 import (
+	"bufio"
 	"fmt"
 	"io"
 	"sync"
@@ -319,11 +320,34 @@ func ensurePacketID(msg message.Message) error {
 	return err
 }
 
+// sendable tells whether the outgoing buffer can take msg at all. A request that
+// cannot be sent must not be registered in an ack queue: it would never be
+// acknowledged and hold up the completion of every request behind it.
+func (svc *service) sendable(msg message.Message) error {
+	svc.wmu.Lock()
+	out := svc.out
+	svc.wmu.Unlock()
+
+	if out == nil {
+		return ErrBufferNotReady
+	}
+
+	if int64(msg.Len()) > out.size {
+		return bufio.ErrBufferFull
+	}
+
+	return nil
+}
+
 func (svc *service) publish(msg *message.PublishMessage, onComplete OnCompleteFunc) error {
 	// Register the request before it is written: its acknowledgement can arrive, and
 	// be processed, before writeMessage has returned.
 	if msg.QoS() != message.QosAtMostOnce {
 		if err := ensurePacketID(msg); err != nil {
+			return fmt.Errorf("(%s) Error sending %s message: %v", svc.cid(), msg.Name(), err)
+		}
+
+		if err := svc.sendable(msg); err != nil {
 			return fmt.Errorf("(%s) Error sending %s message: %v", svc.cid(), msg.Name(), err)
 		}
 	}
@@ -431,6 +455,10 @@ func (svc *service) subscribe(msg *message.SubscribeMessage, onComplete OnComple
 		return fmt.Errorf("(%s) Error sending %s message: %v", svc.cid(), msg.Name(), err)
 	}
 
+	if err := svc.sendable(msg); err != nil {
+		return fmt.Errorf("(%s) Error sending %s message: %v", svc.cid(), msg.Name(), err)
+	}
+
 	if err := svc.sess.Suback.Wait(msg, onc); err != nil {
 		return err
 	}
@@ -501,6 +529,10 @@ func (svc *service) unsubscribe(msg *message.UnsubscribeMessage, onComplete OnCo
 	// Register the request before it is written: the UNSUBACK can be processed before
 	// writeMessage has returned.
 	if err := ensurePacketID(msg); err != nil {
+		return fmt.Errorf("(%s) Error sending %s message: %v", svc.cid(), msg.Name(), err)
+	}
+
+	if err := svc.sendable(msg); err != nil {
 		return fmt.Errorf("(%s) Error sending %s message: %v", svc.cid(), msg.Name(), err)
 	}
 
